@@ -4,7 +4,7 @@ From Trzsz Require Import Base.Bytes Gen.Consts Gen.Skel_rtunnel Model.TunnelSke
 From Coq Require Import ZArith Lia.
 
 Ltac rproj := cbn [r_pairs r_lis r_apc r_connector r_trelay r_era r_tconnected r_x] in *.
-Ltac xproj := cbn [x_status x_pc x_lock x_bufin x_bufout x_outin x_outout] in *.
+Ltac xproj := cbn [x_status x_pc x_lock x_bufin x_bufout x_outin x_outout x_seen] in *.
 Ltac pproj := cbn [p_cli p_srv p_pc p_first p_sfirst p_br p_won] in *.
 Ltac eproj := cbn [e_script e_rx e_eof e_tx e_closed] in *.
 Ltac hproj := cbn [h_chan h_chan_closed h_writer h_pump h_log b_in b_out b_relay] in *.
@@ -574,7 +574,7 @@ Qed.
 
 (* ---- the status word, the handshake goroutine and the buffers ---- *)
 
-Ltac xunf := unfold rt_X, rt_set_pc_lock, rt_set_buf, rt_add_out, rt_hs_finish, rt_set_status, rt_buf, rt_outs in *.
+Ltac xunf := unfold rt_X, rt_set_pc_lock, rt_set_buf, rt_add_out, rt_hs_finish, rt_set_status, rt_add_seen, rt_buf, rt_outs in *.
 
 Lemma rt_X_add_out : forall t era x d o, rt_X t era x ->
   (rt_is_tunnel_src (fst (fst o)) = true -> snd o = false) -> rt_X t era (rt_add_out d o x).
@@ -587,6 +587,13 @@ Proof.
     try (apply in_app_or in Ho'; destruct Ho' as [Ho'|[<-|[]]]; [|exact Ho]);
     first [exact (X7 RdIn o' Ho') | exact (X7 RdOut o' Ho')].
 Qed.
+
+(* the ghost log of the pumps' reads is not constrained *)
+Lemma rt_X_add_seen : forall t era x y, rt_X t era x -> rt_X t era (rt_add_seen y x).
+Proof. intros t era x y H. exact H. Qed.
+
+Lemma RInv_with_x : forall s x, RInv s -> rt_X (r_trelay s) (r_era s) x -> RInv (rt_with_x s x).
+Proof. intros s x (HL & HG & _ & HA) HX. unfold RInv, rt_with_x. rproj. auto. Qed.
 
 (* addHandshakeBuffer takes a chunk (bufferLock free, the relay handshaking) *)
 Lemma rt_X_park : forall t era x d y, rt_X t era x -> x_lock x = false -> x_status x = StHandshaking ->
@@ -856,10 +863,12 @@ Proof.
           destruct (x_status (r_x s)) eqn:Est; try discriminate Ehs. specialize (X6 eq_refl).
           destruct HG as (G1 & G2 & _). destruct (p_won p) as [e0|] eqn:Ew; [|contradiction].
           pose proof (G2 c p e0 Ep Ew) as Hle. apply (G1 c p Ep). rewrite Ew. f_equal. lia. }
+        apply rt_X_add_seen.
         apply rt_X_park; [exact HP|exact Elk|unfold rt_handshaking in Ehs; destruct (x_status (r_x s)); try discriminate Ehs; reflexivity|].
         unfold rt_buf_ok. destruct d; cbn [fst rt_tag]; split; auto.
       * apply rt_ACC_upd; [exact HA|]. intros p0 _ H. destruct d; exact H.
     + destruct (rt_chan_has_room (rt_half_of d b)); [|discriminate Hstep]. injection Hstep as <-.
+      apply RInv_with_x; [|unfold rt_upd_pair, rt_with_pairs; rproj; apply rt_X_add_seen; destruct Hinv as (_ & _ & HP & _); exact HP].
       apply RInv_upd; [exact Hinv| | |].
       * intros p0 Hp0 Hl0. rewrite Ep in Hp0. injection Hp0 as <-. apply rt_local_set_src_drop.
         { destruct d; cbn [rt_src_end] in *; unfold rt_set_br; pproj; exact Ee. }
@@ -1282,6 +1291,617 @@ Qed.
    (the writer goroutine of the opposite direction runs `defer conn.Close()` when its channel is closed)
    never leaves its loop: Read returns (0, "use of closed network connection"), which is not io.EOF, so
    the loop goes round for ever, whatever anybody else does; and its next iteration is always enabled *)
+
+(* ------------------------------------------------------------------------------------ *)
+(* ORDER: per pair and direction, what is on its way through the bridge (written by the writer, in the channel,
+   parked in the relay's handshake buffer, in this order) is what the pump read, some of it left out, none of it
+   overtaken *)
+
+Lemma rt_sub_refl : forall l, rt_sub l l.
+Proof. induction l; constructor; assumption. Qed.
+
+Lemma rt_sub_trans : forall b a c, rt_sub a b -> rt_sub b c -> rt_sub a c.
+Proof.
+  intros b a c Hab Hbc. revert a Hab. induction Hbc as [l|x b c Hbc IH|x b c Hbc IH]; intros a Hab.
+  - inversion Hab. constructor.
+  - inversion Hab as [l|y a' b' Ha'|y a' b' Ha']; subst.
+    + constructor.
+    + constructor. apply IH. exact Ha'.
+    + apply rt_sub_skip. apply IH. exact Ha'.
+  - apply rt_sub_skip. apply IH. exact Hab.
+Qed.
+
+Lemma rt_sub_app : forall a b a' b', rt_sub a b -> rt_sub a' b' -> rt_sub (a ++ a') (b ++ b').
+Proof.
+  intros a b a' b' H H'. induction H as [l|x a b H IH|x a b H IH]; cbn [app].
+  - induction l as [|y l IHl]; cbn [app]; [exact H'|apply rt_sub_skip; exact IHl].
+  - constructor. exact IH.
+  - apply rt_sub_skip. exact IH.
+Qed.
+
+Lemma rt_sub_app_r : forall a b, rt_sub b (a ++ b).
+Proof. intros a b. change b with ([] ++ b) at 1. apply rt_sub_app; [constructor|apply rt_sub_refl]. Qed.
+
+Lemma rt_sub_app_l : forall a b, rt_sub a (a ++ b).
+Proof. intros a b. rewrite <- (app_nil_r a) at 1. apply rt_sub_app; [apply rt_sub_refl|constructor]. Qed.
+
+Lemma rt_own_app : forall d c l1 l2, rt_own d c (l1 ++ l2) = rt_own d c l1 ++ rt_own d c l2.
+Proof. intros d c l1 l2. unfold rt_own, rt_payload. rewrite filter_app, map_app, concat_app. reflexivity. Qed.
+
+Lemma rt_own_cons : forall d c x l,
+  rt_own d c (x :: l) = (if rt_src_eqb (fst x) (rt_tag d c) then snd x else []) ++ rt_own d c l.
+Proof.
+  intros d c x l. unfold rt_own, rt_payload. cbn [filter]. destruct (rt_src_eqb (fst x) (rt_tag d c)); reflexivity.
+Qed.
+
+Lemma rt_own_one : forall d c x, rt_own d c [x] = if rt_src_eqb (fst x) (rt_tag d c) then snd x else [].
+Proof. intros d c x. rewrite rt_own_cons. unfold rt_own, rt_payload. cbn. apply app_nil_r. Qed.
+
+Lemma rt_src_eqb_eq : forall a b, rt_src_eqb a b = true <-> a = b.
+Proof.
+  intros a b. destruct a as [x|x| |g], b as [y|y| |h]; cbn [rt_src_eqb]; split; intros H; try discriminate H; try reflexivity.
+  - apply Nat.eqb_eq in H. subst. reflexivity.
+  - injection H as ->. apply Nat.eqb_refl.
+  - apply Nat.eqb_eq in H. subst. reflexivity.
+  - injection H as ->. apply Nat.eqb_refl.
+  - destruct g, h; try discriminate H; reflexivity.
+  - injection H as ->. destruct h; reflexivity.
+Qed.
+
+Lemma rt_tag_inj : forall d c d' c', rt_tag d c = rt_tag d' c' -> d = d' /\ c = c'.
+Proof. intros d c d' c' H. destruct d, d'; cbn [rt_tag] in H; try discriminate H; injection H as ->; auto. Qed.
+
+Lemma rt_own_other : forall d c x, fst x <> rt_tag d c -> rt_own d c [x] = [].
+Proof.
+  intros d c x H. rewrite rt_own_one. destruct (rt_src_eqb (fst x) (rt_tag d c)) eqn:E; [|reflexivity].
+  apply rt_src_eqb_eq in E. contradiction.
+Qed.
+
+Lemma rt_own_self : forall d c bs, rt_own d c [(rt_tag d c, bs)] = bs.
+Proof.
+  intros d c bs. rewrite rt_own_one. cbn [fst snd].
+  assert (H : rt_src_eqb (rt_tag d c) (rt_tag d c) = true) by (apply rt_src_eqb_eq; reflexivity). rewrite H. reflexivity.
+Qed.
+
+Lemma rt_own_drop : forall d c k b, rt_sub (rt_own d c (rt_drop_bytes k b)) (rt_own d c b).
+Proof.
+  intros d c k b. revert k. induction b as [|[src bs] r IH]; intros k.
+  - destruct k; apply rt_sub_refl.
+  - destruct k as [|k]; [apply rt_sub_refl|]. cbn [rt_drop_bytes].
+    destruct (length bs <=? S k)%nat.
+    + rewrite (rt_own_cons d c (src, bs) r). eapply rt_sub_trans; [apply IH|apply rt_sub_app_r].
+    + rewrite !rt_own_cons. cbn [fst snd]. apply rt_sub_app; [|apply rt_sub_refl].
+      destruct (rt_src_eqb src (rt_tag d c)); [|constructor].
+      rewrite <- (firstn_skipn (S k) bs) at 2. apply rt_sub_app_r.
+Qed.
+
+Definition rt_relayed (ps : list rt_pair) (c : nat) : Prop :=
+  exists p b, nth_error ps c = Some p /\ p_br p = Some b /\ b_relay b = true.
+
+Definition rt_ORD (s : rt_state) : Prop :=
+  (forall c p b d, nth_error (r_pairs s) c = Some p -> p_br p = Some b ->
+     rt_sub (rt_pipe d c b (r_x s)) (rt_own d c (x_seen (r_x s)))) /\
+  (forall d y c, In y (rt_buf d (r_x s)) -> fst y = rt_tag d c -> rt_relayed (r_pairs s) c).
+
+Lemma rt_ORD_init : rt_ORD rt_init.
+Proof. split; [intros c p b d H; destruct c; discriminate H|intros d y c H; destruct d; destruct H]. Qed.
+
+(* nothing of a pair without a bridge is parked *)
+Lemma rt_own_nobr : forall s c p d, RInv s -> nth_error (r_pairs s) c = Some p -> p_br p = None ->
+  forall y, In y (rt_buf d (r_x s)) -> fst y <> rt_tag d c.
+Proof.
+  intros s c p d Hinv Hn Hb y Hy E. pose proof Hinv as (HL & _ & (X1 & _) & _).
+  specialize (X1 d y Hy). unfold rt_buf_ok in X1. rewrite E in X1.
+  assert (Ht : r_trelay s = Some c) by (destruct d; cbn [rt_tag] in X1; destruct X1 as [_ X1]; exact X1).
+  destruct (rt_local_won_br c p (HL c p Hn) (rt_trelay_won s c p Hinv Ht Hn)) as (b & Hb'). congruence.
+Qed.
+
+Lemma rt_own_nil : forall d c l, (forall y, In y l -> fst y <> rt_tag d c) -> rt_own d c l = [].
+Proof.
+  intros d c l. induction l as [|x l IH]; intros H; [reflexivity|].
+  rewrite rt_own_cons. rewrite IH; [|intros y Hy; apply H; right; exact Hy].
+  destruct (rt_src_eqb (fst x) (rt_tag d c)) eqn:E; [|reflexivity].
+  apply rt_src_eqb_eq in E. exfalso. exact (H x (or_introl eq_refl) E).
+Qed.
+
+Definition rt_ORDp (ps : list rt_pair) (x : rt_hs) : Prop :=
+  (forall c p b d, nth_error ps c = Some p -> p_br p = Some b -> rt_sub (rt_pipe d c b x) (rt_own d c (x_seen x))) /\
+  (forall d y c, In y (rt_buf d x) -> fst y = rt_tag d c -> rt_relayed ps c).
+
+Lemma rt_ORD_p : forall s, rt_ORD s <-> rt_ORDp (r_pairs s) (r_x s).
+Proof. intros s. unfold rt_ORD, rt_ORDp. split; intros H; exact H. Qed.
+
+(* the part of a pair the order statement looks at did not change (p' is the later pair) *)
+Definition rt_qsame (p p' : rt_pair) : Prop :=
+  forall b', p_br p' = Some b' -> exists b, p_br p = Some b /\
+    forall d, h_log (rt_half_of d b') = h_log (rt_half_of d b) /\ h_chan (rt_half_of d b') = h_chan (rt_half_of d b).
+Definition rt_qkeep (p p' : rt_pair) : Prop :=
+  forall b, p_br p = Some b -> b_relay b = true -> exists b', p_br p' = Some b' /\ b_relay b' = true.
+
+Lemma rt_pipe_same : forall d c b b' x x',
+  h_log (rt_half_of d b') = h_log (rt_half_of d b) -> h_chan (rt_half_of d b') = h_chan (rt_half_of d b) ->
+  rt_buf d x' = rt_buf d x -> rt_pipe d c b' x' = rt_pipe d c b x.
+Proof. intros d c b b' x x' H1 H2 H3. unfold rt_pipe. rewrite H1, H2, H3. reflexivity. Qed.
+
+Lemma rt_ORDp_frame : forall ps x ps' x',
+  rt_ORDp ps x ->
+  (forall c p', nth_error ps' c = Some p' -> exists p, nth_error ps c = Some p /\ rt_qsame p p') ->
+  (forall c p, nth_error ps c = Some p -> exists p', nth_error ps' c = Some p' /\ rt_qkeep p p') \/ (forall d, rt_buf d x' = []) ->
+  (forall d, rt_buf d x' = rt_buf d x) -> x_seen x' = x_seen x ->
+  rt_ORDp ps' x'.
+Proof.
+  intros ps x ps' x' (HP & HR) HA HB Hbuf Hseen. split.
+  - intros c p' b' d Hn' Hb'. destruct (HA c p' Hn') as (p & Hn & Hq). destruct (Hq b' Hb') as (b & Hb & Hd).
+    destruct (Hd d) as [H1 H2]. rewrite (rt_pipe_same d c b b' x x' H1 H2 (Hbuf d)), Hseen. exact (HP c p b d Hn Hb).
+  - intros d y c Hy Ht. destruct HB as [HB|HB]; [|rewrite HB in Hy; destruct Hy].
+    rewrite Hbuf in Hy. destruct (HR d y c Hy Ht) as (p & b & Hn & Hb & Hr).
+    destruct (HB c p Hn) as (p' & Hn' & Hk). destruct (Hk b Hb Hr) as (b' & Hb' & Hr'). exists p', b'. auto.
+Qed.
+
+Lemma rt_frame_upd : forall ps c0 f,
+  (forall p, nth_error ps c0 = Some p -> rt_qsame p (f p) /\ rt_qkeep p (f p)) ->
+  (forall c p', nth_error (upd c0 f ps) c = Some p' -> exists p, nth_error ps c = Some p /\ rt_qsame p p') /\
+  (forall c p, nth_error ps c = Some p -> exists p', nth_error (upd c0 f ps) c = Some p' /\ rt_qkeep p p').
+Proof.
+  intros ps c0 f Hf.
+  assert (Hid1 : forall p, rt_qsame p p) by (intros p b' Hb'; exists b'; split; [exact Hb'|intros d; split; reflexivity]).
+  assert (Hid2 : forall p, rt_qkeep p p) by (intros p b Hb Hr; exists b; auto).
+  split.
+  - intros c p' Hn'. rewrite nth_upd in Hn'. destruct (Nat.eqb c0 c) eqn:E.
+    + apply Nat.eqb_eq in E. subst c. destruct (nth_error ps c0) as [p|] eqn:Ep; [|discriminate Hn'].
+      cbn [option_map] in Hn'. injection Hn' as <-. exists p. split; [reflexivity|]. apply Hf. reflexivity.
+    + exists p'. split; [exact Hn'|apply Hid1].
+  - intros c p Hn. rewrite nth_upd. destruct (Nat.eqb c0 c) eqn:E.
+    + apply Nat.eqb_eq in E. subst c. rewrite Hn. cbn [option_map]. exists (f p). split; [reflexivity|]. apply Hf. exact Hn.
+    + exists p. split; [exact Hn|apply Hid2].
+Qed.
+
+(* a step that rewrites pair c0 by f, keeps the buffers and the read log, and f keeps what the order statement looks at *)
+Lemma rt_ORDp_upd : forall ps x c0 f x',
+  rt_ORDp ps x ->
+  (forall p, nth_error ps c0 = Some p -> rt_qsame p (f p) /\ rt_qkeep p (f p)) ->
+  (forall d, rt_buf d x' = rt_buf d x) -> x_seen x' = x_seen x ->
+  rt_ORDp (upd c0 f ps) x'.
+Proof.
+  intros ps x c0 f x' HO Hf Hb Hs. destruct (rt_frame_upd ps c0 f Hf) as [HA HB].
+  apply (rt_ORDp_frame ps x); try assumption. left. exact HB.
+Qed.
+
+Ltac qs_clean := setters; pproj;
+  repeat match goal with
+         | |- context [match p_srv ?p with _ => _ end] => destruct (p_srv p)
+         | H : context [match p_srv ?p with _ => _ end] |- _ => destruct (p_srv p)
+         end; pproj.
+Ltac qs := (* rt_qsame p (f p) /\ rt_qkeep p (f p) for an f that does not touch logs or channels and does not clear the back-pointer *)
+  split;
+  [ let b1 := fresh "b1" in let Hb1 := fresh "Hb1" in intros b1 Hb1; qs_clean;
+    first [ exists b1; split; [exact Hb1|intros d; split; reflexivity]
+          | injection Hb1 as <-; eexists; split; [eassumption|]; intros d; destruct d; hproj; split; reflexivity ]
+  | let b0 := fresh "b0" in let Hb0 := fresh "Hb0" in let Hr0 := fresh "Hr0" in intros b0 Hb0 Hr0; qs_clean;
+    first [ exists b0; split; assumption
+          | eexists; split; [reflexivity|]; hproj;
+            try match goal with Eb : p_br ?p = Some _ |- _ => rewrite Eb in Hb0; injection Hb0 as <- end;
+            first [assumption|reflexivity] ] ].
+
+Ltac ordp := apply rt_ORD_p; unfold rt_upd_pair, rt_with_pairs, rt_with_x; rproj.
+(* a step that rewrites one pair by an f that the order statement does not see *)
+Ltac ord_upd HO Ep := ordp; apply (rt_ORDp_upd _ _ _ _ _ (proj1 (rt_ORD_p _) HO));
+  [ let p0 := fresh "p0" in let Hp0 := fresh "Hp0" in intros p0 Hp0; rewrite Ep in Hp0; injection Hp0 as <-; qs
+  | intros ?d; reflexivity | reflexivity ].
+
+Lemma rt_ord_handler : forall s c p dial fail s', RInv s -> rt_ORD s ->
+  nth_error (r_pairs s) c = Some p -> rt_handler ch1 sh4 ch2 sh3 s c p dial fail = Some s' -> rt_ORD s'.
+Proof.
+  intros s c p dial fail s' Hinv HO Ep Hstep. unfold rt_handler in Hstep.
+  destruct (p_pc p) as [ | | | | |r| | | |r| | | | | | | | | |o] eqn:Epc; try discriminate Hstep.
+  - destruct (r_connector s); injection Hstep as <-; ord_upd HO Ep.
+  - destruct (e_rx (p_cli p)); [destruct (e_eof (p_cli p)); [|discriminate Hstep]|]; injection Hstep as <-; ord_upd HO Ep.
+  - destruct r as [got|]; [destruct (hello_matches got ch1)|]; injection Hstep as <-; ord_upd HO Ep.
+  - destruct dial; injection Hstep as <-; ord_upd HO Ep.
+  - destruct (p_srv p) as [e|] eqn:Es; [|discriminate Hstep].
+    destruct fail; [destruct (e_eof e); [|discriminate Hstep]|]; injection Hstep as <-; ord_upd HO Ep.
+  - destruct (p_srv p) as [e|] eqn:Es; [|discriminate Hstep].
+    destruct (e_rx e); [destruct (e_eof e); [|discriminate Hstep]|]; injection Hstep as <-; ord_upd HO Ep.
+  - destruct r as [got|]; [destruct (hello_matches got sh3)|]; injection Hstep as <-; ord_upd HO Ep.
+  - destruct fail; [destruct (e_eof (p_cli p)); [|discriminate Hstep]|]; injection Hstep as <-; ord_upd HO Ep.
+  - (* RtNew: a fresh bridge; nothing of this pair can be parked *)
+    injection Hstep as <-. pose proof Hinv as (HL & _). pose proof (HL c p Ep) as Hl. unfold rt_local in Hl. rewrite Epc in Hl.
+    destruct Hl as (_ & _ & _ & _ & Hbr & _). destruct HO as (HP & HR). ordp. split.
+    + intros c' p' b' d Hn' Hb'. rewrite nth_upd in Hn'. destruct (Nat.eqb c c') eqn:E.
+      * apply Nat.eqb_eq in E. subst c'. rewrite Ep in Hn'. cbn [option_map] in Hn'. injection Hn' as <-.
+        setters. pproj. injection Hb' as <-. unfold rt_pipe. destruct d; hproj; cbn [rt_own rt_payload filter map concat app];
+          rewrite (rt_own_nil _ c _ (rt_own_nobr s c p _ Hinv Ep Hbr)); constructor.
+      * exact (HP c' p' b' d Hn' Hb').
+    + intros d y c' Hy Ht. destruct (HR d y c' Hy Ht) as (q & b & Hn & Hb & Hr). exists q, b. split; [|auto].
+      rewrite nth_upd. destruct (Nat.eqb c c') eqn:E; [|exact Hn].
+      apply Nat.eqb_eq in E. subst c'. rewrite Ep in Hn. injection Hn as <-. congruence.
+  - (* RtCas *)
+    destruct (r_trelay s); injection Hstep as <-.
+    + ord_upd HO Ep.
+    + ordp. apply (rt_ORDp_upd _ _ _ _ _ (proj1 (rt_ORD_p _) HO)); [|intros d; reflexivity|reflexivity].
+      intros p0 Hp0. rewrite Ep in Hp0. injection Hp0 as <-. qs.
+  - destruct (p_br p) as [b|] eqn:Eb; [|discriminate Hstep]. injection Hstep as <-. ord_upd HO Ep.
+  - destruct (p_br p) as [b|] eqn:Eb; [|discriminate Hstep]. injection Hstep as <-. ord_upd HO Ep.
+  - destruct (p_br p) as [b|] eqn:Eb; [|discriminate Hstep]. injection Hstep as <-. ord_upd HO Ep.
+  - injection Hstep as <-. ord_upd HO Ep.
+  - destruct (p_br p) as [b|] eqn:Eb; [|discriminate Hstep]. injection Hstep as <-. ord_upd HO Ep.
+  - destruct (p_br p) as [b|] eqn:Eb; [|discriminate Hstep]. injection Hstep as <-. ord_upd HO Ep.
+Qed.
+
+(* only the buffers change, and they lose (or gain foreign) chunks *)
+Lemma rt_ORDp_bufs : forall ps x x', rt_ORDp ps x -> x_seen x' = x_seen x ->
+  (forall d c, rt_sub (rt_own d c (rt_buf d x')) (rt_own d c (rt_buf d x))) ->
+  (forall d y, In y (rt_buf d x') -> (exists y0, In y0 (rt_buf d x) /\ fst y0 = fst y) \/ (forall c, fst y <> rt_tag d c)) ->
+  rt_ORDp ps x'.
+Proof.
+  intros ps x x' (HP & HR) Hs Hsub Hin. split.
+  - intros c p b d Hn Hb. rewrite Hs. eapply rt_sub_trans; [|exact (HP c p b d Hn Hb)].
+    unfold rt_pipe. apply rt_sub_app; [apply rt_sub_refl|]. apply rt_sub_app; [apply rt_sub_refl|apply Hsub].
+  - intros d y c Hy Ht. destruct (Hin d y Hy) as [(y0 & H0 & H1)|H]; [|exfalso; exact (H c Ht)].
+    apply (HR d y0 c H0). congruence.
+Qed.
+
+(* a chunk z joins the channel of pair c0 (direction d0): a line of the relay's own, or the head of the handshake buffer *)
+Lemma rt_ORDp_push : forall ps x x' c0 p b d0 z pre,
+  rt_ORDp ps x -> nth_error ps c0 = Some p -> p_br p = Some b ->
+  x_seen x' = x_seen x -> (forall d, d <> d0 -> rt_buf d x' = rt_buf d x) -> rt_buf d0 x = pre ++ rt_buf d0 x' ->
+  (pre = [] /\ fst z = RsRelay) \/ (pre = [z] /\ forall c, fst z = rt_tag d0 c -> c = c0) ->
+  rt_ORDp (upd c0 (rt_set_br (rt_set_half d0 (rt_half_push z (rt_half_of d0 b)) b)) ps) x'.
+Proof.
+  intros ps x x' c0 p b d0 z pre (HP & HR) Ep Eb Hs Hoth Hd0 Hz. split.
+  - intros c p' b' d Hn' Hb'. rewrite Hs. rewrite nth_upd in Hn'. destruct (Nat.eqb c0 c) eqn:E.
+    + apply Nat.eqb_eq in E. subst c. rewrite Ep in Hn'. cbn [option_map] in Hn'. injection Hn' as <-.
+      unfold rt_set_br in Hb'. pproj. injection Hb' as <-. specialize (HP c0 p b d Ep Eb). unfold rt_pipe in *.
+      destruct d, d0; unfold rt_half_push in *; cbn [rt_set_half rt_half_of] in *; hproj;
+        try (first [rewrite (Hoth RdIn ltac:(discriminate))|rewrite (Hoth RdOut ltac:(discriminate))]; exact HP);
+        rewrite Hd0 in HP; rewrite rt_own_app, rt_own_one;
+        (destruct Hz as [[-> Hz]|[-> Hz]];
+         [ rewrite Hz; cbn [rt_src_eqb rt_tag app] in *; rewrite ?app_nil_r in *; exact HP
+         | rewrite rt_own_app, rt_own_one in HP; rewrite <- ?app_assoc in *; exact HP ]).
+    + apply Nat.eqb_neq in E. specialize (HP c p' b' d Hn' Hb'). unfold rt_pipe in *.
+      assert (Hb : rt_own d c (rt_buf d x') = rt_own d c (rt_buf d x)).
+      { assert (Hmain : rt_own d0 c (rt_buf d0 x') = rt_own d0 c (rt_buf d0 x)).
+        { rewrite Hd0, rt_own_app. destruct Hz as [[-> _]|[-> Hz]]; [reflexivity|].
+          rewrite rt_own_other; [reflexivity|]. intros Ht. apply E. symmetry. exact (Hz c Ht). }
+        destruct d, d0; first [exact Hmain | rewrite (Hoth RdIn ltac:(discriminate)); reflexivity
+                              | rewrite (Hoth RdOut ltac:(discriminate)); reflexivity]. }
+      rewrite Hb. exact HP.
+  - intros d y c Hy Ht.
+    assert (Hy' : In y (rt_buf d x)).
+    { destruct d, d0; try (first [rewrite <- (Hoth RdIn ltac:(discriminate))|rewrite <- (Hoth RdOut ltac:(discriminate))]; exact Hy); rewrite Hd0; apply in_or_app; right; exact Hy. }
+    destruct (HR d y c Hy' Ht) as (q & b1 & Hn & Hb1 & Hr). unfold rt_relayed. rewrite nth_upd.
+    destruct (Nat.eqb c0 c) eqn:E; [|exists q, b1; auto].
+    apply Nat.eqb_eq in E. subst c. rewrite Ep in Hn. injection Hn as <-. rewrite Ep. cbn [option_map].
+    rewrite Eb in Hb1. injection Hb1 as <-. eexists. eexists. split; [reflexivity|].
+    unfold rt_set_br. pproj. split; [reflexivity|]. destruct d0; exact Hr.
+Qed.
+
+(* rt_route under the order invariant: the buffers of the routed state are those of x (pre = what was just popped) *)
+Lemma rt_ord_route : forall s d0 z pc lk s' x pre,
+  rt_route s d0 z pc lk = Some s' -> rt_ORDp (r_pairs s) x ->
+  x_seen (r_x s) = x_seen x -> (forall d, d <> d0 -> rt_buf d (r_x s) = rt_buf d x) -> rt_buf d0 x = pre ++ rt_buf d0 (r_x s) ->
+  (pre = [] /\ fst z = RsRelay) \/ (pre = [z] /\ rt_buf_ok (r_trelay s) d0 z) ->
+  rt_ORD s'.
+Proof.
+  intros s d0 z pc lk s' x pre Hstep HO Hs Hoth Hd0 Hz. unfold rt_route in Hstep.
+  assert (Hinb : rt_ORDp (r_pairs s) (rt_add_out d0 (z, r_tconnected s) (rt_set_pc_lock pc lk (r_x s)))).
+  { assert (Hbf : forall d o, rt_buf d (rt_add_out d0 o (rt_set_pc_lock pc lk (r_x s))) = rt_buf d (r_x s))
+      by (intros d o; destruct d, d0; reflexivity).
+    assert (Hcase : forall d, (d <> d0 /\ rt_buf d (r_x s) = rt_buf d x) \/ (d = d0)).
+    { intros d. destruct d, d0; first [right; reflexivity | left; split; [discriminate|apply Hoth; discriminate]]. }
+    apply (rt_ORDp_bufs _ x); [exact HO|destruct d0; exact Hs| |].
+    - intros d c. rewrite Hbf. destruct (Hcase d) as [[_ H]| ->]; [rewrite H; apply rt_sub_refl|].
+      rewrite Hd0, rt_own_app. apply rt_sub_app_r.
+    - intros d y Hy. rewrite Hbf in Hy. left. exists y. split; [|reflexivity].
+      destruct (Hcase d) as [[_ H]| ->]; [rewrite <- H; exact Hy|]. rewrite Hd0. apply in_or_app. right. exact Hy. }
+  destruct (r_trelay s) as [c0|] eqn:Et.
+  - destruct (r_tconnected s) eqn:Etc.
+    + destruct (nth_error (r_pairs s) c0) as [p|] eqn:Ep; [|discriminate Hstep].
+      destruct (p_br p) as [b|] eqn:Eb; [|discriminate Hstep].
+      destruct (rt_chan_has_room (rt_half_of d0 b)); [|discriminate Hstep]. injection Hstep as <-.
+      ordp. apply (rt_ORDp_push _ x _ c0 p b d0 z pre HO Ep Eb).
+      * destruct d0; exact Hs.
+      * intros d Hd. destruct d, d0; try contradiction; cbn [rt_set_pc_lock rt_buf]; xproj; apply (Hoth _ Hd).
+      * destruct d0; exact Hd0.
+      * destruct Hz as [Hz|[Hp Hz]]; [left; exact Hz|right]. split; [exact Hp|]. intros c Ht.
+        unfold rt_buf_ok in Hz. rewrite Ht in Hz. destruct d0; cbn [rt_tag] in Hz; destruct Hz as [_ Hz]; congruence.
+    + injection Hstep as <-. ordp. exact Hinb.
+  - assert (Hr : s' = rt_with_x s (rt_add_out d0 (z, r_tconnected s) (rt_set_pc_lock pc lk (r_x s)))).
+    { destruct (r_tconnected s); injection Hstep as <-; reflexivity. }
+    subst s'. ordp. exact Hinb.
+Qed.
+
+(* a reset: the buffers are empty; the back-pointer of the pair that was adopted is cleared *)
+Lemma rt_ord_reset : forall s x, rt_ORD s -> (forall d, rt_buf d x = []) -> x_seen x = x_seen (r_x s) ->
+  (forall d, rt_buf d x = rt_buf d (r_x s)) -> rt_ORD (rt_reset s x).
+Proof.
+  intros s x HO Hemp Hs Hbuf. apply rt_ORD_p. unfold rt_reset. rproj.
+  set (f := fun p : rt_pair => match p_br p with Some b => rt_set_br (rt_set_relay false b) p | None => p end).
+  assert (Hq : forall p, rt_qsame p (f p)).
+  { intros p b' Hb'. unfold f in Hb'. destruct (p_br p) as [b|] eqn:Eb; [|congruence].
+    unfold rt_set_br, rt_set_relay in Hb'. pproj. injection Hb' as <-. exists b. split; [reflexivity|].
+    intros d; destruct d; hproj; split; reflexivity. }
+  apply (rt_ORDp_frame (r_pairs s) (r_x s)); [exact (proj1 (rt_ORD_p _) HO)| |right; exact Hemp|exact Hbuf|exact Hs].
+  intros c p' Hn'. destruct (r_trelay s) as [t|].
+  - rewrite nth_upd in Hn'. destruct (Nat.eqb t c).
+    + destruct (nth_error (r_pairs s) c) as [p|]; [|discriminate Hn']. cbn [option_map] in Hn'. injection Hn' as <-.
+      exists p. split; [reflexivity|apply Hq].
+    + exists p'. split; [exact Hn'|]. intros b' Hb'. exists b'. split; [exact Hb'|intros d; split; reflexivity].
+  - exists p'. split; [exact Hn'|]. intros b' Hb'. exists b'. split; [exact Hb'|intros d; split; reflexivity].
+Qed.
+
+Lemma rt_ord_step : forall s l s', RInv s -> rt_ORD s -> rt_step ch1 sh4 ch2 sh3 s l = Some s' -> rt_ORD s'.
+Proof.
+  intros s l s' Hinv HO Hstep.
+  destruct l as [script|c|c|c| | |c dial fail|c d|c d n|c d|c d|c d|v|d bs|k ok tun conf|bs| ]; unfold rt_step in Hstep.
+  - (* RLConnect *)
+    injection Hstep as <-. ordp. destruct HO as (HP & HR). split.
+    + intros c p b d Hn Hb. apply nth_error_app_last in Hn. destruct Hn as [Hn|[_ ->]]; [exact (HP c p b d Hn Hb)|].
+      unfold rt_new_pair in Hb. pproj. discriminate Hb.
+    + intros d y c Hy Ht. destruct (HR d y c Hy Ht) as (p & b & Hn & Hb & Hr). exists p, b. split; [|auto].
+      rewrite nth_error_app1; [exact Hn|]. eapply nth_error_lt. exact Hn.
+  - (* RLPeerC *)
+    destruct (nth_error (r_pairs s) c) as [p|] eqn:Ep; [|discriminate Hstep].
+    destruct (rt_end_peer (p_cli p)); [|discriminate Hstep]. injection Hstep as <-. ord_upd HO Ep.
+  - (* RLPeerS *)
+    destruct (nth_error (r_pairs s) c) as [p|] eqn:Ep; [|discriminate Hstep].
+    destruct (p_srv p) as [e0|] eqn:Es; [|discriminate Hstep].
+    destruct (rt_end_peer e0); [|discriminate Hstep]. injection Hstep as <-. ord_upd HO Ep.
+  - (* RLAccept *)
+    destruct (r_apc s); try discriminate Hstep. destruct (r_lis s); try discriminate Hstep.
+    destruct (nth_error (r_pairs s) c) as [p|] eqn:Ep; [|discriminate Hstep].
+    destruct (p_pc p); try discriminate Hstep. injection Hstep as <-. ord_upd HO Ep.
+  - (* RLAcceptErr *)
+    destruct (r_apc s); try discriminate Hstep. destruct (r_lis s); try discriminate Hstep.
+    injection Hstep as <-. exact HO.
+  - (* RLCheck *)
+    destruct (r_apc s) as [|c|] eqn:Ea; try discriminate Hstep. destruct Hinv as (_ & _ & _ & HA).
+    destruct (HA c Ea) as (p & Ep & _).
+    destruct (r_trelay s); injection Hstep as <-; ord_upd HO Ep.
+  - (* RLHandler *)
+    destruct (nth_error (r_pairs s) c) as [p|] eqn:Ep; [|discriminate Hstep].
+    exact (rt_ord_handler s c p dial fail s' Hinv HO Ep Hstep).
+  - (* RLWriter *)
+    destruct (nth_error (r_pairs s) c) as [p|] eqn:Ep; [|discriminate Hstep].
+    destruct (p_br p) as [b|] eqn:Eb; [|discriminate Hstep].
+    destruct (rt_dst_end d p) as [e|] eqn:Ee; [|discriminate Hstep].
+    destruct (h_writer (rt_half_of d b)) eqn:Ew; [|discriminate Hstep].
+    destruct (h_chan (rt_half_of d b)) as [|x rest] eqn:Ech.
+    + destruct (h_chan_closed (rt_half_of d b)) eqn:Ecl; [|discriminate Hstep]. injection Hstep as <-.
+      ordp. apply (rt_ORDp_upd _ _ _ _ _ (proj1 (rt_ORD_p _) HO)); [|intros d'; reflexivity|reflexivity].
+      intros p0 Hp0. rewrite Ep in Hp0. injection Hp0 as <-. split.
+      * intros b' Hb'. destruct d; cbn [rt_set_dst_end] in Hb'; setters; pproj; injection Hb' as <-;
+          (exists b; split; [exact Eb|]); intros d'; destruct d'; hproj; cbn [rt_half_of] in *; split; congruence.
+      * intros b0 Hb0 Hr0. rewrite Eb in Hb0. injection Hb0 as <-.
+        destruct d; cbn [rt_set_dst_end]; setters; pproj; eexists; (split; [reflexivity|]); hproj; exact Hr0.
+    + (* a chunk leaves the channel: written (it joins the log) or dropped *)
+      destruct HO as (HP & HR).
+      assert (Hres : exists wr : bool, r_pairs s' = upd c (fun q => let q1 := rt_set_br (rt_set_half d
+                 (mkRtHalf rest (h_chan_closed (rt_half_of d b)) true (h_pump (rt_half_of d b))
+                           (if wr then h_log (rt_half_of d b) ++ [x] else h_log (rt_half_of d b))) b) q in
+                 if wr then rt_set_dst_end d (rt_end_write (snd x) e) q1 else q1) (r_pairs s) /\ r_x s' = r_x s).
+      { destruct (e_closed e); injection Hstep as <-; [exists false|exists true]; unfold rt_upd_pair, rt_with_pairs; rproj;
+          split; reflexivity. }
+      destruct Hres as (wr & Hps & Hx). apply rt_ORD_p. rewrite Hps, Hx. split.
+      * intros c' p' b' d' Hn' Hb'. rewrite nth_upd in Hn'. destruct (Nat.eqb c c') eqn:E.
+        -- apply Nat.eqb_eq in E. subst c'. rewrite Ep in Hn'. cbn [option_map] in Hn'. injection Hn' as <-.
+           assert (Hb'' : b' = rt_set_half d (mkRtHalf rest (h_chan_closed (rt_half_of d b)) true (h_pump (rt_half_of d b))
+                             (if wr then h_log (rt_half_of d b) ++ [x] else h_log (rt_half_of d b))) b).
+           { destruct wr; destruct d; cbn [rt_set_dst_end] in Hb'; setters; pproj; injection Hb' as <-; reflexivity. }
+           subst b'. specialize (HP c p b d' Ep Eb). unfold rt_pipe in *.
+           destruct d, d'; cbn [rt_set_half rt_half_of] in *; hproj; try exact HP; rewrite Ech in HP;
+             rewrite (rt_own_cons _ c x rest) in HP; destruct wr; rewrite ?rt_own_app, ?rt_own_one, <- ?app_assoc in *;
+             try exact HP;
+             (eapply rt_sub_trans; [|exact HP]; apply rt_sub_app; [apply rt_sub_refl|apply rt_sub_app_r]).
+        -- exact (HP c' p' b' d' Hn' Hb').
+      * intros d' y c' Hy Ht. destruct (HR d' y c' Hy Ht) as (q & b1 & Hn & Hb1 & Hr). unfold rt_relayed. rewrite nth_upd.
+        destruct (Nat.eqb c c') eqn:E; [|exists q, b1; auto].
+        apply Nat.eqb_eq in E. subst c'. rewrite Ep in Hn. injection Hn as <-. rewrite Ep. cbn [option_map].
+        rewrite Eb in Hb1. injection Hb1 as <-.
+        destruct wr; destruct d; cbn [rt_set_dst_end]; setters; pproj;
+          (eexists; eexists; split; [reflexivity|]; pproj; split; [reflexivity|]; hproj; exact Hr).
+  - (* RLPump *)
+    destruct (nth_error (r_pairs s) c) as [p|] eqn:Ep; [|discriminate Hstep].
+    destruct (p_br p) as [b|] eqn:Eb; [|discriminate Hstep].
+    destruct (rt_src_end d p) as [e|] eqn:Ee; [|discriminate Hstep].
+    destruct (h_pump (rt_half_of d b)) eqn:Epm; try discriminate Hstep.
+    match type of Hstep with (if ?x then _ else _) = _ => destruct x end; [|discriminate Hstep].
+    set (z := (rt_tag d c, firstn n (e_rx e))) in *.
+    assert (Hzo : forall d' c', (d', c') <> (d, c) -> rt_own d' c' [z] = []).
+    { intros d' c' Hne. apply rt_own_other. unfold z. cbn [fst]. intros Ht. apply rt_tag_inj in Ht. destruct Ht as [-> ->]. apply Hne. reflexivity. }
+    assert (Hzs : rt_own d c [z] = snd z) by (unfold z; apply rt_own_self).
+    destruct (b_relay b && rt_handshaking s) eqn:Epark.
+    + (* parked: behind everything of this pair that is parked already *)
+      destruct (x_lock (r_x s)); [discriminate Hstep|]. injection Hstep as <-.
+      apply andb_true_iff in Epark. destruct Epark as [Erel _].
+      assert (H1 : rt_ORDp (upd c (rt_set_src_end d (rt_end_drop n e)) (r_pairs s)) (r_x s)).
+      { apply (rt_ORDp_upd _ (r_x s)); [exact (proj1 (rt_ORD_p _) HO)| |intros d'; reflexivity|reflexivity].
+        intros p0 Hp0. rewrite Ep in Hp0. injection Hp0 as <-. destruct d; cbn [rt_set_src_end]; qs. }
+      ordp. destruct H1 as (HP & HR). split.
+      * intros c' p' b' d' Hn' Hb'. specialize (HP c' p' b' d' Hn' Hb'). unfold rt_pipe in *.
+        assert (Hsn : x_seen (rt_add_seen z (rt_set_buf d (rt_buf d (r_x s) ++ [z]) (r_x s))) = x_seen (r_x s) ++ [z])
+          by (destruct d; reflexivity).
+        rewrite Hsn, rt_own_app.
+        destruct d, d'; unfold rt_add_seen, rt_set_buf, rt_buf in *; xproj;
+          first [ rewrite rt_own_app, !app_assoc; apply rt_sub_app; [|apply rt_sub_refl]; rewrite <- !app_assoc; exact HP
+                | eapply rt_sub_trans; [exact HP|apply rt_sub_app_l] ].
+      * intros d' y c' Hy Ht.
+        assert (Hy' : In y (rt_buf d' (r_x s)) \/ (y = z /\ d' = d)).
+        { destruct d, d'; unfold rt_add_seen, rt_set_buf, rt_buf in *; xproj; try (left; exact Hy);
+            (apply in_app_or in Hy; destruct Hy as [Hy|[<-|[]]]; [left; exact Hy|right; split; reflexivity]). }
+        destruct Hy' as [Hy'|[-> ->]]; [exact (HR d' y c' Hy' Ht)|].
+        unfold z in Ht. cbn [fst] in Ht. apply rt_tag_inj in Ht. destruct Ht as [_ <-].
+        unfold rt_relayed. rewrite nth_upd_same, Ep. cbn [option_map]. eexists. exists b. split; [reflexivity|].
+        split; [destruct d; cbn [rt_set_src_end]; setters; pproj; exact Eb|exact Erel].
+    + (* forwarded into the pump's own channel: nothing of this pair and direction is parked *)
+      destruct (rt_chan_has_room (rt_half_of d b)); [|discriminate Hstep]. injection Hstep as <-.
+      destruct HO as (HP & HR).
+      assert (Hnb : rt_own d c (rt_buf d (r_x s)) = []).
+      { apply rt_own_nil. intros y Hy Ht. destruct (HR d y c Hy Ht) as (q & b1 & Hn & Hb1 & Hr).
+        rewrite Ep in Hn. injection Hn as <-. rewrite Eb in Hb1. injection Hb1 as <-. rewrite Hr in Epark.
+        pose proof Hinv as (_ & _ & (_ & _ & _ & X4 & _) & _).
+        assert (Hne : x_status (r_x s) <> StHandshaking).
+        { intros H. unfold rt_handshaking in Epark. rewrite H in Epark. discriminate Epark. }
+        destruct (X4 Hne) as [Hbi Hbo]. destruct d; cbn [rt_buf] in Hy; rewrite ?Hbi, ?Hbo in Hy; destruct Hy. }
+      ordp. split.
+      * intros c' p' b' d' Hn' Hb'. assert (Hsn : x_seen (rt_add_seen z (r_x s)) = x_seen (r_x s) ++ [z]) by reflexivity.
+        assert (Hbf : forall d0, rt_buf d0 (rt_add_seen z (r_x s)) = rt_buf d0 (r_x s)) by (intros d0; destruct d0; reflexivity).
+        unfold rt_pipe. rewrite Hsn, Hbf, rt_own_app. rewrite nth_upd in Hn'. destruct (Nat.eqb c c') eqn:E.
+        -- apply Nat.eqb_eq in E. subst c'. rewrite Ep in Hn'. cbn [option_map] in Hn'. injection Hn' as <-.
+           assert (Hb'' : b' = rt_set_half d (rt_half_push z (rt_half_of d b)) b).
+           { destruct d; cbn [rt_set_src_end] in Hb'; setters; pproj; injection Hb' as <-; reflexivity. }
+           subst b'. specialize (HP c p b d' Ep Eb). unfold rt_pipe in HP.
+           destruct d, d'; unfold rt_half_push; cbn [rt_set_half rt_half_of] in *; hproj;
+             first [ rewrite Hnb in *; rewrite rt_own_app, !app_nil_r in *; rewrite app_assoc; apply rt_sub_app; [exact HP|apply rt_sub_refl]
+                   | eapply rt_sub_trans; [exact HP|apply rt_sub_app_l] ].
+        -- eapply rt_sub_trans; [exact (HP c' p' b' d' Hn' Hb')|apply rt_sub_app_l].
+      * intros d' y c' Hy Ht. assert (Hy' : In y (rt_buf d' (r_x s))) by (destruct d'; exact Hy).
+        destruct (HR d' y c' Hy' Ht) as (q & b1 & Hn & Hb1 & Hr). unfold rt_relayed. rewrite nth_upd.
+        destruct (Nat.eqb c c') eqn:E; [|exists q, b1; auto].
+        apply Nat.eqb_eq in E. subst c'. rewrite Ep in Hn. injection Hn as <-. rewrite Ep. cbn [option_map].
+        rewrite Eb in Hb1. injection Hb1 as <-.
+        destruct d; cbn [rt_set_src_end]; setters; pproj; (eexists; eexists; split; [reflexivity|]; pproj; split; [reflexivity|]; hproj; exact Hr).
+  - (* RLPumpEof *)
+    destruct (nth_error (r_pairs s) c) as [p|] eqn:Ep; [|discriminate Hstep].
+    destruct (p_br p) as [b|] eqn:Eb; [|discriminate Hstep].
+    destruct (rt_src_end d p) as [e|] eqn:Ee; [|discriminate Hstep].
+    destruct (h_pump (rt_half_of d b)) eqn:Epm; try discriminate Hstep. destruct (e_rx e); [|discriminate Hstep].
+    match type of Hstep with (if ?x then _ else _) = _ => destruct x end; [|discriminate Hstep].
+    injection Hstep as <-. destruct d; ord_upd HO Ep.
+  - (* RLPumpExit *)
+    destruct (nth_error (r_pairs s) c) as [p|] eqn:Ep; [|discriminate Hstep].
+    destruct (p_br p) as [b|] eqn:Eb; [|discriminate Hstep].
+    destruct (h_pump (rt_half_of d b)) eqn:Epm; try discriminate Hstep. destruct (b_relay b); [discriminate Hstep|].
+    injection Hstep as <-. destruct d; ord_upd HO Ep.
+  - (* RLPumpSpin *)
+    destruct (nth_error (r_pairs s) c) as [p|] eqn:Ep; [|discriminate Hstep].
+    destruct (p_br p) as [b|]; [|discriminate Hstep]. destruct (rt_src_end d p) as [e|]; [|discriminate Hstep].
+    destruct (h_pump (rt_half_of d b)); try discriminate Hstep. destruct (e_closed e); [|discriminate Hstep].
+    injection Hstep as <-. exact HO.
+  - (* RLSetConnector *)
+    injection Hstep as <-. exact HO.
+  - (* RLInband *)
+    destruct bs as [|b0 bs]; [discriminate Hstep|].
+    assert (Hout : forall o, rt_ORDp (r_pairs s) (rt_add_out d o (r_x s))).
+    { intros o. apply (rt_ORDp_bufs _ (r_x s)); [exact (proj1 (rt_ORD_p _) HO)|destruct d; reflexivity| |].
+      - intros d' c'. destruct d, d'; apply rt_sub_refl.
+      - intros d' y Hy. left. exists y. split; [destruct d, d'; exact Hy|reflexivity]. }
+    destruct (rt_handshaking s); [destruct (x_lock (r_x s)); [discriminate Hstep|]; destruct (r_tconnected s)|];
+      injection Hstep as <-; ordp; try apply Hout.
+    apply (rt_ORDp_bufs _ (r_x s)); [exact (proj1 (rt_ORD_p _) HO)|destruct d; reflexivity| |].
+    + intros d' c'. destruct d, d'; cbn [rt_set_buf rt_buf]; xproj; try apply rt_sub_refl;
+        rewrite rt_own_app, rt_own_other, app_nil_r; try apply rt_sub_refl; cbn [fst]; destruct c'; discriminate.
+    + intros d' y Hy. destruct d, d'; cbn [rt_set_buf rt_buf] in Hy; xproj;
+        try (left; exists y; split; [exact Hy|reflexivity]);
+        (apply in_app_or in Hy; destruct Hy as [Hy|[<-|[]]];
+         [left; exists y; split; [exact Hy|reflexivity]|right; intros c'; cbn [fst rt_tag]; discriminate]).
+  - (* RLHsRead *)
+    destruct (x_pc (r_x s)); try discriminate Hstep;
+      (match type of Hstep with (if ?x then _ else _) = _ => destruct x end; [|discriminate Hstep]);
+      injection Hstep as <-; ordp;
+      (apply (rt_ORDp_bufs _ (r_x s)); [exact (proj1 (rt_ORD_p _) HO)|reflexivity| |]).
+    + intros d c. destruct d; cbn [rt_set_pc_lock rt_set_buf rt_buf]; xproj; [apply rt_own_drop|apply rt_sub_refl].
+    + intros d y Hy. left. destruct d; cbn [rt_set_pc_lock rt_set_buf rt_buf] in Hy; xproj;
+        [apply rt_drop_bytes_in in Hy; exact Hy|exists y; split; [exact Hy|reflexivity]].
+    + intros d c. destruct d; cbn [rt_set_pc_lock rt_set_buf rt_buf]; xproj; [apply rt_sub_refl|apply rt_own_drop].
+    + intros d y Hy. left. destruct d; cbn [rt_set_pc_lock rt_set_buf rt_buf] in Hy; xproj;
+        [exists y; split; [exact Hy|reflexivity]|apply rt_drop_bytes_in in Hy; exact Hy].
+  - (* RLHs *)
+    assert (Hpc : forall pc lk, rt_ORDp (r_pairs s) (rt_set_pc_lock pc lk (r_x s))).
+    { intros pc lk. apply (rt_ORDp_bufs _ (r_x s)); [exact (proj1 (rt_ORD_p _) HO)|reflexivity| |].
+      - intros d c. destruct d; apply rt_sub_refl.
+      - intros d y Hy. left. exists y. split; [destruct d; exact Hy|reflexivity]. }
+    assert (Hline : forall d0 pc lk, rt_route s d0 (RsRelay, bs) pc lk = Some s' -> rt_ORD s').
+    { intros d0 pc lk Hr. apply (rt_ord_route s d0 (RsRelay, bs) pc lk s' (r_x s) [] Hr (proj1 (rt_ORD_p _) HO));
+        [reflexivity|intros d _; reflexivity|reflexivity|left; split; reflexivity]. }
+    pose proof Hinv as (_ & _ & (X1 & _ & _ & X4 & X5 & _) & _).
+    destruct (x_pc (r_x s)) as [ |tn cf|cf| | | | |cf|cf|cf| ] eqn:Epc; try discriminate Hstep.
+    + injection Hstep as <-. ordp. apply Hpc.
+    + exact (Hline _ _ _ Hstep).
+    + exact (Hline _ _ _ Hstep).
+    + exact (Hline _ _ _ Hstep).
+    + exact (Hline _ _ _ Hstep).
+    + destruct (x_bufin (r_x s)) as [|y rest] eqn:Eb; [injection Hstep as <-; ordp; apply Hpc|].
+      apply (rt_ord_route _ RdIn y _ _ s' (r_x s) [y] Hstep); unfold rt_with_x; rproj.
+      * exact (proj1 (rt_ORD_p _) HO).
+      * reflexivity.
+      * intros d Hd. destruct d; [contradiction|reflexivity].
+      * cbn [rt_set_buf rt_buf]. xproj. rewrite Eb. reflexivity.
+      * right. split; [reflexivity|]. apply (X1 RdIn). cbn [rt_buf]. rewrite Eb. left. reflexivity.
+    + destruct (x_bufout (r_x s)) as [|y rest] eqn:Eb; [injection Hstep as <-; ordp; apply Hpc|].
+      apply (rt_ord_route _ RdOut y _ _ s' (r_x s) [y] Hstep); unfold rt_with_x; rproj.
+      * exact (proj1 (rt_ORD_p _) HO).
+      * reflexivity.
+      * intros d Hd. destruct d; [reflexivity|contradiction].
+      * cbn [rt_set_buf rt_buf]. xproj. rewrite Eb. reflexivity.
+      * right. split; [reflexivity|]. apply (X1 RdOut). cbn [rt_buf]. rewrite Eb. left. reflexivity.
+    + (* HsFlushEnd: the buffers are empty *)
+      cbn iota in X5. destruct X5 as [Hbi Hbo].
+      destruct cf; injection Hstep as <-.
+      * ordp. apply (rt_ORDp_bufs _ (r_x s)); [exact (proj1 (rt_ORD_p _) HO)|reflexivity| |].
+        -- intros d c. destruct d; apply rt_sub_refl.
+        -- intros d y Hy. left. exists y. split; [destruct d; exact Hy|reflexivity].
+      * apply rt_ord_reset; [exact HO|intros d; destruct d; cbn [rt_hs_finish rt_buf]; xproj; assumption|reflexivity
+                             |intros d; destruct d; reflexivity].
+  - (* RLReset *)
+    destruct (x_status (r_x s)) eqn:Est; try discriminate Hstep. injection Hstep as <-.
+    pose proof Hinv as (_ & _ & (_ & _ & _ & X4 & _) & _).
+    assert (Hne : x_status (r_x s) <> StHandshaking) by (rewrite Est; discriminate). destruct (X4 Hne) as [Hbi Hbo].
+    apply rt_ord_reset; [exact HO|intros d; destruct d; cbn [rt_set_status rt_buf]; xproj; assumption|reflexivity
+                         |intros d; destruct d; reflexivity].
+Qed.
+
+
+Lemma rt_reach_ord : forall s, rt_reach ch1 sh4 ch2 sh3 s -> RInv s /\ rt_ORD s.
+Proof.
+  intros s [ls H]. assert (G : forall ls s0 s1, RInv s0 -> rt_ORD s0 -> rt_run ch1 sh4 ch2 sh3 s0 ls = Some s1 -> RInv s1 /\ rt_ORD s1).
+  { clear. induction ls as [|l ls IH]; intros s0 s1 Hi Ho Hrun; cbn [rt_run] in Hrun.
+    - injection Hrun as <-. split; assumption.
+    - destruct (rt_step ch1 sh4 ch2 sh3 s0 l) as [s2|] eqn:E; [|discriminate Hrun].
+      apply (IH s2 s1); [exact (rt_step_inv s0 l s2 Hi E)|exact (rt_ord_step s0 l s2 Hi Ho E)|exact Hrun]. }
+  exact (G ls rt_init s RInv_init rt_ORD_init H).
+Qed.
+
+(* ORDER THROUGH THE BRIDGE: for every pair and direction, what of the pump's reads is on its way — written to the far
+   connection, then in the channel, then parked in the relay's handshake buffer — is, in this order, what the pump read
+   from the near connection with some bytes left out (the handshake lines the relay consumed, what a writer could not
+   write to a closed connection, what an unagreed handshake handed back in-band) and NOTHING OVERTAKEN *)
+Lemma rt_order : forall s c p b d, rt_reach ch1 sh4 ch2 sh3 s -> nth_error (r_pairs s) c = Some p -> p_br p = Some b ->
+  rt_sub (rt_pipe d c b (r_x s)) (rt_own d c (x_seen (r_x s))).
+Proof. intros s c p b d Hr Hn Hb. destruct (rt_reach_ord s Hr) as [_ (HP & _)]. exact (HP c p b d Hn Hb). Qed.
+
+(* in particular what the far connection has been sent of it *)
+Lemma rt_order_far : forall s c p b d, rt_reach ch1 sh4 ch2 sh3 s -> nth_error (r_pairs s) c = Some p -> p_br p = Some b ->
+  rt_sub (rt_own d c (h_log (rt_half_of d b))) (rt_own d c (x_seen (r_x s))).
+Proof.
+  intros s c p b d Hr Hn Hb. eapply rt_sub_trans; [|exact (rt_order s c p b d Hr Hn Hb)]. unfold rt_pipe. apply rt_sub_app_l.
+Qed.
+
+(* parked chunks are flushed before any later chunk of the same pair and direction is forwarded: a pump puts a chunk
+   into its own channel only when nothing of its pair and direction is parked *)
+Lemma rt_forward_only_when_none_parked : forall s c d n s', rt_reach ch1 sh4 ch2 sh3 s ->
+  rt_step ch1 sh4 ch2 sh3 s (RLPump c d n) = Some s' ->
+  (forall d', rt_buf d' (r_x s') = rt_buf d' (r_x s)) -> rt_own d c (rt_buf d (r_x s)) = [].
+Proof.
+  intros s c d n s' Hr Hstep Hsame. destruct (rt_reach_ord s Hr) as [Hinv (_ & HR)]. unfold rt_step in Hstep.
+  destruct (nth_error (r_pairs s) c) as [p|] eqn:Ep; [|discriminate Hstep].
+  destruct (p_br p) as [b|] eqn:Eb; [|discriminate Hstep].
+  destruct (rt_src_end d p) as [e|] eqn:Ee; [|discriminate Hstep].
+  destruct (h_pump (rt_half_of d b)); try discriminate Hstep.
+  match type of Hstep with (if ?x then _ else _) = _ => destruct x end; [|discriminate Hstep].
+  destruct (b_relay b && rt_handshaking s) eqn:Epark.
+  - destruct (x_lock (r_x s)); [discriminate Hstep|]. injection Hstep as <-. exfalso.
+    specialize (Hsame d). rproj.
+    assert (Hl : rt_buf d (rt_add_seen (rt_tag d c, firstn n (e_rx e)) (rt_set_buf d (rt_buf d (r_x s) ++ [(rt_tag d c, firstn n (e_rx e))]) (r_x s)))
+                 = rt_buf d (r_x s) ++ [(rt_tag d c, firstn n (e_rx e))]) by (destruct d; reflexivity).
+    rewrite Hl in Hsame. apply (f_equal (@length _)) in Hsame. rewrite app_length in Hsame. cbn [length] in Hsame. lia.
+  - apply rt_own_nil. intros y Hy Ht. destruct (HR d y c Hy Ht) as (q & b1 & Hn & Hb1 & Hrel).
+    rewrite Ep in Hn. injection Hn as <-. rewrite Eb in Hb1. injection Hb1 as <-. rewrite Hrel in Epark.
+    pose proof Hinv as (_ & _ & (_ & _ & _ & X4 & _) & _).
+    assert (Hne : x_status (r_x s) <> StHandshaking).
+    { intros H. unfold rt_handshaking in Epark. rewrite H in Epark. discriminate Epark. }
+    destruct (X4 Hne) as [Hbi Hbo]. destruct d; cbn [rt_buf] in Hy; rewrite ?Hbi, ?Hbo in Hy; destruct Hy.
+Qed.
 
 Definition rt_spin_pair (d : rt_dir) (p : rt_pair) : Prop :=
   exists b e, p_br p = Some b /\ rt_src_end d p = Some e /\ h_pump (rt_half_of d b) = PmRun /\ e_closed e = true.
